@@ -548,21 +548,17 @@ def perturbations(p):
         out.append(('drop-required:' + r, q, {}))
     out.append(('drop-required:o', dict(p), {'drop_o': True}))
     n2 = p.get('n2', p['n1'])
+    # an inapplicable parameter is inapplicable whatever its value, also
+    # when the value equals what the parameter would default to
+    banned_values = {'twopl': [True], 'n2': [2, 1, p['n1']], 'n3': [2, 1],
+                     't2': [0.5, 0.0, 0, 1.0], 'uq': [n2 + 1, n2, 0],
+                     'lq': [1, 0], 'llq': [1, 0], 'luq': [3, 1],
+                     'lt': [1, 0]}
     for b in BANNED[mp]:
-        q = dict(p)
-        if b == 'twopl':
-            q[b] = True
-        elif b in ('n2', 'n3'):
-            q[b] = 2
-        elif b == 't2':
-            q[b] = 0.5
-        elif b == 'uq':
-            q[b] = n2 + 1
-        elif b == 'luq':
-            q[b] = 3
-        else:
-            q[b] = 1
-        out.append(('banned:' + b, q, {}))
+        for v in banned_values[b]:
+            q = dict(p)
+            q[b] = v
+            out.append(('banned:%s=%r' % (b, v), q, {}))
 
     def viol(label, **kw):
         q = dict(p)
